@@ -6,94 +6,94 @@ From Mgr Require Import Gen.MgrDefs Model.Manager.
 Import ListNotations.
 Open Scope Z_scope.
 
-Definition hoare {A} (P : mstate -> Prop) (m : M A) (Q : A -> mstate -> Prop) (C : mstate -> Prop) : Prop :=
-  forall s, P s -> match m s with Ok a s' => Q a s' | Crash _ s' => C s' end.
+Definition hoare {A} (P : mstate -> Prop) (m : M A) (Q : A -> mstate -> Prop) (C : exn -> mstate -> Prop) : Prop :=
+  forall s, P s -> match m s with Ok a s' => Q a s' | Crash e s' => C e s' end.
 
-Lemma hoare_ret {A} (P : mstate -> Prop) (a : A) Q C : (forall s, P s -> Q a s) -> hoare P (ret a) Q C.
+Lemma hoare_ret {A} (P : mstate -> Prop) (a : A) (Q : A -> mstate -> Prop) (C : exn -> mstate -> Prop) : (forall s, P s -> Q a s) -> hoare P (ret a) Q C.
 Proof. intros H s Hs. simpl. auto. Qed.
 
-Lemma hoare_bind {A B} P (m : M A) (k : A -> M B) R Q C :
+Lemma hoare_bind {A B} (P : mstate -> Prop) (m : M A) (k : A -> M B) (R : A -> mstate -> Prop) (Q : B -> mstate -> Prop) (C : exn -> mstate -> Prop) :
   hoare P m R C -> (forall a, hoare (R a) (k a) Q C) -> hoare P (bind m k) Q C.
 Proof.
   intros Hm Hk s Hs. unfold bind. specialize (Hm s Hs).
   destruct (m s) as [a s'|e s']; [apply (Hk a s' Hm)|exact Hm].
 Qed.
 
-Lemma hoare_get P (k : mstate -> M unit) Q C :
+Lemma hoare_get (P : mstate -> Prop) (k : mstate -> M unit) (Q : unit -> mstate -> Prop) (C : exn -> mstate -> Prop) :
   (forall s0, hoare (fun s => P s /\ s = s0) (k s0) Q C) -> hoare P (bind get k) Q C.
 Proof. intros H s Hs. unfold bind, get. apply (H s s). auto. Qed.
 
-Lemma hoare_get_gen {A} P (k : mstate -> M A) Q C :
+Lemma hoare_get_gen {A} (P : mstate -> Prop) (k : mstate -> M A) (Q : A -> mstate -> Prop) (C : exn -> mstate -> Prop) :
   (forall s0, hoare (fun s => P s /\ s = s0) (k s0) Q C) -> hoare P (bind get k) Q C.
 Proof. intros H s Hs. unfold bind, get. apply (H s s). auto. Qed.
 
-Lemma hoare_modify P f (Q : unit -> mstate -> Prop) C :
+Lemma hoare_modify (P : mstate -> Prop) f (Q : unit -> mstate -> Prop) (C : exn -> mstate -> Prop) :
   (forall s, P s -> Q tt (f s)) -> hoare P (modify f) Q C.
 Proof. intros H s Hs. simpl. auto. Qed.
 
-Lemma hoare_crash {A} P e (Q : A -> mstate -> Prop) (C : mstate -> Prop) :
-  (forall s, P s -> C s) -> hoare P (crash e) Q C.
+Lemma hoare_crash {A} (P : mstate -> Prop) e (Q : A -> mstate -> Prop) (C : exn -> mstate -> Prop) :
+  (forall s, P s -> C e s) -> hoare P (crash e) Q C.
 Proof. intros H s Hs. simpl. auto. Qed.
 
-Lemma hoare_weaken {A} (P P' : mstate -> Prop) (m : M A) (Q Q' : A -> mstate -> Prop) (C C' : mstate -> Prop) :
-  hoare P' m Q' C' -> (forall s, P s -> P' s) -> (forall a s, Q' a s -> Q a s) -> (forall s, C' s -> C s) ->
+Lemma hoare_weaken {A} (P P' : mstate -> Prop) (m : M A) (Q Q' : A -> mstate -> Prop) (C C' : exn -> mstate -> Prop) :
+  hoare P' m Q' C' -> (forall s, P s -> P' s) -> (forall a s, Q' a s -> Q a s) -> (forall e s, C' e s -> C e s) ->
   hoare P m Q C.
 Proof.
   intros H HP HQ HC s Hs. specialize (H s (HP s Hs)). destruct (m s); auto.
 Qed.
 
-Lemma hoare_pre {A} (P P' : mstate -> Prop) (m : M A) Q C :
+Lemma hoare_pre {A} (P P' : mstate -> Prop) (m : M A) (Q : A -> mstate -> Prop) (C : exn -> mstate -> Prop) :
   hoare P' m Q C -> (forall s, P s -> P' s) -> hoare P m Q C.
 Proof. intros H HP. eapply hoare_weaken; eauto. Qed.
 
-Lemma hoare_if {A} (b : bool) P (m1 m2 : M A) Q C :
+Lemma hoare_if {A} (b : bool) (P : mstate -> Prop) (m1 m2 : M A) (Q : A -> mstate -> Prop) (C : exn -> mstate -> Prop) :
   (b = true -> hoare P m1 Q C) -> (b = false -> hoare P m2 Q C) -> hoare P (if b then m1 else m2) Q C.
 Proof. destruct b; auto. Qed.
 
-Lemma hoare_false {A} (m : M A) Q C : hoare (fun _ => False) m Q C.
+Lemma hoare_false {A} (m : M A) (Q : A -> mstate -> Prop) (C : exn -> mstate -> Prop) : hoare (fun _ => False) m Q C.
 Proof. intros s []. Qed.
 
 (* pure knowledge can be pulled out of the precondition *)
-Lemma hoare_pure {A} (F : Prop) P (m : M A) Q C :
+Lemma hoare_pure {A} (F : Prop) (P : mstate -> Prop) (m : M A) (Q : A -> mstate -> Prop) (C : exn -> mstate -> Prop) :
   (F -> hoare P m Q C) -> hoare (fun s => F /\ P s) m Q C.
 Proof. intros H s [HF HP]. exact (H HF s HP). Qed.
 
-Lemma hoare_mapM {A} (I : mstate -> Prop) (f : A -> M unit) (l : list A) C :
+Lemma hoare_mapM {A} (I : mstate -> Prop) (f : A -> M unit) (l : list A) (C : exn -> mstate -> Prop) :
   (forall x, In x l -> hoare I (f x) (fun _ => I) C) -> hoare I (mapM_ f l) (fun _ => I) C.
 Proof.
   induction l as [|x r IH]; intros H; simpl.
   - apply hoare_ret; auto.
-  - eapply hoare_bind; [apply H; left; reflexivity|]. intros _. apply IH. intros y Hy. apply H. right. exact Hy.
+  - eapply hoare_bind; [apply H; left; reflexivity|]. intros ?. apply IH. intros y Hy. apply H. right. exact Hy.
 Qed.
 
 (* invariants: same predicate before, after and at a crash *)
-Definition pres {A} (I : mstate -> Prop) (m : M A) : Prop := hoare I m (fun _ => I) I.
+Definition pres {A} (I : mstate -> Prop) (m : M A) : Prop := hoare I m (fun _ => I) (fun _ => I).
 
-Lemma pres_ret {A} I (a : A) : pres I (ret a).
+Lemma pres_ret {A} (I : mstate -> Prop) (a : A) : pres I (ret a).
 Proof. apply hoare_ret; auto. Qed.
 
-Lemma pres_bind {A B} I (m : M A) (k : A -> M B) : pres I m -> (forall a, pres I (k a)) -> pres I (bind m k).
+Lemma pres_bind {A B} (I : mstate -> Prop) (m : M A) (k : A -> M B) : pres I m -> (forall a, pres I (k a)) -> pres I (bind m k).
 Proof. intros H1 H2. eapply hoare_bind; [exact H1|exact H2]. Qed.
 
-Lemma pres_crash {A} I e : pres I (@crash A e).
+Lemma pres_crash {A} (I : mstate -> Prop) e : pres I (@crash A e).
 Proof. apply hoare_crash; auto. Qed.
 
-Lemma pres_if {A} (b : bool) I (m1 m2 : M A) : pres I m1 -> pres I m2 -> pres I (if b then m1 else m2).
+Lemma pres_if {A} (b : bool) (I : mstate -> Prop) (m1 m2 : M A) : pres I m1 -> pres I m2 -> pres I (if b then m1 else m2).
 Proof. destruct b; auto. Qed.
 
-Lemma pres_modify I f : (forall s, I s -> I (f s)) -> pres I (modify f).
+Lemma pres_modify (I : mstate -> Prop) f : (forall s, I s -> I (f s)) -> pres I (modify f).
 Proof. intros H. apply hoare_modify; auto. Qed.
 
-Lemma pres_get {A} I (k : mstate -> M A) : (forall s0, I s0 -> hoare (fun s => I s /\ s = s0) (k s0) (fun _ => I) I) -> pres I (bind get k).
+Lemma pres_get {A} (I : mstate -> Prop) (k : mstate -> M A) : (forall s0, I s0 -> hoare (fun s => I s /\ s = s0) (k s0) (fun _ => I) (fun _ => I)) -> pres I (bind get k).
 Proof.
   intros H s Hs. unfold bind, get. apply (H s Hs s). auto.
 Qed.
 
-Lemma pres_mapM {A} I (f : A -> M unit) l : (forall x, pres I (f x)) -> pres I (mapM_ f l).
+Lemma pres_mapM {A} (I : mstate -> Prop) (f : A -> M unit) l : (forall x, pres I (f x)) -> pres I (mapM_ f l).
 Proof. intros H. apply hoare_mapM. intros x _. apply H. Qed.
 
 (* final state of a result *)
 Definition st {A} (r : res A) : mstate := match r with Ok _ s => s | Crash _ s => s end.
 
-Lemma pres_st {A} I (m : M A) s : pres I m -> I s -> I (st (m s)).
+Lemma pres_st {A} (I : mstate -> Prop) (m : M A) s : pres I m -> I s -> I (st (m s)).
 Proof. intros H Hs. specialize (H s Hs). destruct (m s); exact H. Qed.
